@@ -284,8 +284,10 @@ class Interp:
         if st.level:
             cur = scope.globals.get("__name__", "")
             base = cur.split(".")
-            # module files (not packages): drop last component
-            base = base[: len(base) - st.level]
+            # module files drop their own name first; packages (__init__.py) are their own level-1 base
+            curmod = self.modules.get(cur)
+            is_pkg = bool(curmod and curmod.path and curmod.path.endswith("__init__.py"))
+            base = base[: len(base) - st.level + (1 if is_pkg else 0)]
             modname = ".".join(base + ([st.module] if st.module else []))
         if modname == "__future__":
             return
@@ -1033,7 +1035,7 @@ class Interp:
                     if r is not NOT_IMPLEMENTED:
                         return r
             self.raise_py("TypeError", f"unsupported operand type(s) for {op}")
-        if op == "BitOr" and (isinstance(a, (ClassV, Opaque)) or isinstance(b, (ClassV, Opaque)) or a is None or b is None):
+        if op == "BitOr" and (isinstance(a, (ClassV, Opaque, NativeFn)) or isinstance(b, (ClassV, Opaque, NativeFn)) or a is None or b is None):
             # type union `X | Y` (annotations, isinstance)
             la = a if isinstance(a, tuple) else (a,)
             lb = b if isinstance(b, tuple) else (b,)
@@ -1429,8 +1431,8 @@ class Interp:
             else:
                 if self.loading or getattr(self, "permissive_opaque", False):
                     return v
-        if isinstance(v, NativeFn) and v.name in ("list", "tuple", "dict", "set", "type", "frozenset"):
-            return v
+        if isinstance(v, NativeFn):
+            return v  # generic alias: list[int], Sequence[P], Callable[..., T]
         idx = self.eval_index(e.slice, scope)
         return self.getitem(v, idx)
 
